@@ -77,9 +77,10 @@ def main():
     known = [k for k in load_known() if k["property"] == pid]
     active = [k["name"] for k in known if k.get("status") == "known"]
     t0 = time.time()
-    rdir = os.path.join(VERIF, "replays", pid)
+    sfx = os.environ.get("VERIF_SUFFIX", "")  # development only: separate work/replay/evidence files for runs against a scratch copy
+    rdir = os.path.join(VERIF, "replays", pid + sfx)
     os.makedirs(rdir, exist_ok=True)
-    wdir = os.path.join(VERIF, "work", pid)
+    wdir = os.path.join(VERIF, "work", pid + sfx)
     shutil.rmtree(wdir, ignore_errors=True)
     os.makedirs(wdir, exist_ok=True)
 
@@ -224,7 +225,11 @@ def main():
         "violations": len(violations),
     }
     os.makedirs(os.path.join(VERIF, "evidence"), exist_ok=True)
-    json.dump(evidence, open(os.path.join(VERIF, "evidence", pid + ".json"), "w"), indent=1)
+    if sfx:
+        os.makedirs(os.path.join(VERIF, "work", "evidence"), exist_ok=True)
+        json.dump(evidence, open(os.path.join(VERIF, "work", "evidence", pid + sfx + ".json"), "w"), indent=1)
+    else:
+        json.dump(evidence, open(os.path.join(VERIF, "evidence", pid + ".json"), "w"), indent=1)
     print("SUMMARY property=%s tier=%s harnesses=%d paths=%d queries=%d violations=%d known=%d inconclusive=%d wall=%.1fs" % (
         pid, tier, len(results), tot("paths"), q["sat"] + q["unsat"] + q["unknown"], len(violations), len(known_hits), len(inconclusive), wall))
     if violations:
